@@ -12,6 +12,7 @@ import (
 	"os"
 	"path/filepath"
 	"strings"
+	"sync/atomic"
 	"syscall"
 	"time"
 
@@ -36,7 +37,15 @@ type breakReader struct {
 func (b *breakReader) Read(p []byte) (int, error) {
 	if b.pos >= b.cut {
 		if b.block != nil {
-			<-b.block
+			// the stall ends when the scrape's context ends; a scrape that never gives up is released after
+			// c13StallBound (far beyond the 150 ms scrape timeout and the 5 s of the Prometheus side) so that
+			// the check can finish and report it
+			select {
+			case <-b.block:
+			case <-time.After(c13StallBound):
+				atomic.StoreInt32(&c13StallExpired, 1)
+				return 0, errors.New("still stalled after the bound (scripted)")
+			}
 			return 0, errors.New("context deadline exceeded (scripted)")
 		}
 		if b.err != nil {
@@ -56,6 +65,10 @@ func (b *breakReader) Read(p []byte) (int, error) {
 	return n, nil
 }
 func (b *breakReader) Close() error { return nil }
+
+const c13StallBound = 7 * time.Second
+
+var c13StallExpired int32
 
 type c13Case struct {
 	Kind     string `json:"kind"`
@@ -165,6 +178,9 @@ func init() {
 			}
 			if !failing && !clientFailed && !bytes.Equal(got, full) {
 				r.Violate("C13:success-bytes", "success-is-success", fmt.Sprintf("%+v: body differs", cs), idx, rp("success-is-success", ""))
+			}
+			if atomic.SwapInt32(&c13StallExpired, 0) == 1 || (cs.Kind == "timeout-mid-body" && clientFailed && strings.Contains(fmt.Sprint(obs["client_error"]), "Client.Timeout")) {
+				r.Violate("C13:timeout-not-enforced:"+cs.Kind, "prometheus-side-fails", fmt.Sprintf("%+v: the target stalled after its headers; the scrape timeout of 150 ms did not end the scrape (the Prometheus side gave up by its own 5 s timeout)", cs), idx, rp("prometheus-side-fails", ""))
 			}
 			st := sc.TM.TargetsInfo().Status[1]
 			if cs.Assigned {
